@@ -465,7 +465,12 @@ func init() {
 				for k := range srcs {
 					mk := c10Msg(fw.NewRand(seed + 1000 + uint64(k)))
 					// long texts: the ids are computed over the whole text
-					long := &ref.Raw{Text: " " + strings.Repeat(c10Text(fw.NewRand(seed+2000+uint64(k)))+" ", 40)}
+					unit := c10Text(fw.NewRand(seed+2000+uint64(k))) + " "
+					reps := 40
+					if len(unit) > 100 {
+						reps = 2 // (the unit is one of the long texts already)
+					}
+					long := &ref.Raw{Text: " " + strings.Repeat(unit, reps)}
 					if pl, isPl := mk.Body[0].(*ref.Plural); isPl {
 						pl.Default = append(pl.Default, long)
 					} else {
